@@ -21,7 +21,10 @@ type memSock struct {
 	inbound chan knxnet.Service
 	closed  bool
 	failing bool
-	tcp     bool
+	// writes of routing indications that carry one of these telegrams fail (a failure in the middle
+	// of a batch of resends)
+	failPids map[int]bool
+	tcp      bool
 	// autoConnect answers connect requests: list of responses still to give (nil = none)
 	onSend func(f string)
 }
@@ -33,6 +36,10 @@ func (s *memSock) Send(p knxnet.ServicePackable) error {
 	if s.failing || s.closed {
 		s.mu.Unlock()
 		return errors.New("socket failure")
+	}
+	if ind, ok := p.(*knxnet.RoutingInd); ok && len(s.failPids) > 0 && s.failPids[pidOf(ind.Payload)] {
+		s.mu.Unlock()
+		return errors.New("socket failure (this telegram)")
 	}
 	f := renderFrame(p)
 	line := fmt.Sprintf("tx %d %s", s.now(), f)
